@@ -47,3 +47,27 @@ Theorem C10_ellipsoid_separator_sound : forall W e1 e2 s lam u1 u2, good e1 -> g
   ~ (forall n, (n < length W)%nat -> nth n s 0 <= dot (nth n W []) (vsub (ell_point e2 u2) (ell_point e1 u1))).
 Proof. exact cov_separator_sound. Qed.
 Print Assumptions C10_ellipsoid_separator_sound.
+
+(* the feasibility problem that EllipsoidalConfidenceRegion.is_covered POSES, regenerated from the source (Gen_ell.v), is the
+   exists-exists specification over the two ellipsoids { c + alpha M g : |g| <= 1 } — the form the certificate checkers use *)
+From Coq Require Import Reals.
+From VOPy Require Import EllipsoidR EllSpec EllPosed EllPosedCov.
+From VOPyGen Require Import Gen_ell.
+Theorem C10_posed_ellipsoid_problem_is_spec : forall n W E1 E2 M1 M2 slack,
+  wf_ell n E1 M1 -> wf_ell n E2 M2 ->
+  ((exists mux muy, length mux = n /\ length muy = n /\
+      gen_ell_dom_cons1 E1 mux /\ gen_ell_dom_cons2 E2 muy /\
+      (forall k w s, nth_error W k = Some w -> nth_error slack k = Some s -> (s <= rdot w (rvsub muy mux))%R))
+   <->
+   (exists g1 g2, length g1 = n /\ length g2 = n /\ (rnorm2 g1 <= 1)%R /\ (rnorm2 g2 <= 1)%R /\
+      (forall k w s, nth_error W k = Some w -> nth_error slack k = Some s ->
+         (s <= rdot w (rvsub (ell_pt (e_center E2) (e_alpha E2) M2 g2) (ell_pt (e_center E1) (e_alpha E1) M1 g1)))%R))).
+Proof. exact gen_ell_is_covered_param. Qed.
+Print Assumptions C10_posed_ellipsoid_problem_is_spec.
+(* and the regenerated is_covered is that feasibility problem (same membership constraints, cone constraint >= slack) *)
+Theorem C10_regenerated_is_covered_unfolds : forall W E1 E2 slack,
+  gen_ell_is_covered W E1 E2 slack <->
+  exists mux muy, gen_ell_dom_cons1 E1 mux /\ gen_ell_dom_cons2 E2 muy /\
+    (forall n w s, nth_error W n = Some w -> nth_error slack n = Some s -> (s <= rdot w (rvsub muy mux))%R).
+Proof. intros. unfold gen_ell_is_covered, gen_ell_dom_cons1, gen_ell_dom_cons2. reflexivity. Qed.
+Print Assumptions C10_regenerated_is_covered_unfolds.
